@@ -30,16 +30,15 @@ ASSUMPTIONS = ['line numbers are 1-based indices into text.split("\\n") (a final
 SHARDS = {'quick': 8, 'thorough': 16}
 BUDGET = {'quick': 75, 'thorough': 1500}
 
-# C19 findings that make the regex frontend crash / time out / mis-nest units are of no interest here
-PROFILE = gen.profile(cond_string=False, free_iface_modproc=False, char_star_fun=False, internal_before_module=False,
-                      bare_end=False)
+# files on which the two frontends disagree about WHAT is there (C19 findings) are of no interest here
+PROFILE = gen.profile(**{k: False for k in gen.TRIGGER_FLAGS})
 
 FP_CLASS = {'call': 'CallStatement', 'if1-call': 'CallStatement', 'assign': 'Assignment', 'if1-assign': 'Assignment',
             'use': 'Import', 'iface-body-import': 'Import', 'decl': 'VariableDeclaration', 'comp-decl': 'VariableDeclaration',
             'iface-body-decl': 'VariableDeclaration', 'binding': 'ProcedureDeclaration',
             'generic-binding': 'ProcedureDeclaration', 'final-binding': 'ProcedureDeclaration',
             'deferred-binding': 'ProcedureDeclaration', 'modproc': 'ProcedureDeclaration'}
-RE_CLASS = {'call': 'CallStatement', 'use': 'Import'}
+RE_CLASS = {'call': 'CallStatement', 'if1-call': 'CallStatement', 'use': 'Import'}
 
 
 def walk(obj, seen):
@@ -93,8 +92,26 @@ def squeeze(s):
     return ''.join(s.lower().replace('&', '').split())
 
 
-def check_node(node, lines, nlines):
-    """-> None | (kind, detail)"""
+def trim_blank(text):
+    """text without leading/trailing whitespace-only lines"""
+    ls = text.split('\n')
+    while ls and not ls[0].strip():
+        ls.pop(0)
+    while ls and not ls[-1].strip():
+        ls.pop()
+    return '\n'.join(ls)
+
+
+def gappy_comment_block(node, lines):
+    """CommentBlock whose member comments do not sit on adjacent lines (code lines in between)"""
+    if type(node).__name__ != 'CommentBlock':
+        return False
+    ls = sorted(c.source.lines[0] for c in node.comments if c.source is not None)
+    return any(b - a > 1 and any(lines[k - 1].strip() for k in range(a + 1, b)) for a, b in zip(ls, ls[1:]))
+
+
+def check_node(node, lines, nlines, strict_blocks=False):
+    """-> None | (kind, detail) | ('excluded', reason)"""
     src = getattr(node, 'source', None)
     if src is None:
         return None
@@ -109,10 +126,14 @@ def check_node(node, lines, nlines):
     if s is None:
         return None
     seg = '\n'.join(lines[l0 - 1:l1])
+    if s not in seg and not strict_blocks and gappy_comment_block(node, lines):
+        return ('excluded', 'CommentBlock over comments that are not on adjacent lines (listed finding)')
     if s not in seg:
         return ('text-not-at-recorded-lines', f'lines {src.lines}: recorded {s[:200]!r} / file has {seg[:200]!r}')
-    if s and s.count('\n') != l1 - l0 and s.strip('\n').count('\n') != l1 - l0:
-        return ('text-line-count-differs-from-span', f'lines {src.lines} but text has {s.count(chr(10)) + 1} lines: {s[:120]!r}')
+    if s.strip() and s.count('\n') != l1 - l0 and trim_blank(s).count('\n') != trim_blank(seg).count('\n'):
+        # (blank lines at either end of the span may be missing from the text: Section sources are stripped)
+        return ('text-covers-fewer-lines-than-span', f'lines {src.lines} but the text has {trim_blank(s).count(chr(10)) + 1} '
+                f'non-blank-delimited lines: {s[:120]!r}')
     for nm in own_names(node):
         if squeeze(nm) not in squeeze(s):
             return ('own-name-not-in-text', f'lines {src.lines}: {type(node).__name__} names {nm!r} but its text is {s[:160]!r}')
@@ -134,7 +155,7 @@ def shift_of(node, lines, nlines):
     return None
 
 
-def check_frontend(fe, sf, rendered, lines, nlines, ctx, case):
+def check_frontend(fe, sf, rendered, lines, nlines, ctx, case, complete=True):
     """returns the number of checked nodes spanning >= 2 lines"""
     nodes = list(walk(sf.ir, set()))
     multi = 0
@@ -144,8 +165,10 @@ def check_frontend(fe, sf, rendered, lines, nlines, ctx, case):
         if src is not None and src.lines[1] is not None and src.lines[1] > src.lines[0] \
                 and type(n).__name__ not in ('Section', 'Module', 'Subroutine', 'Function'):
             multi += 1
-        r = check_node(n, lines, nlines)
-        if r is not None:
+        r = check_node(n, lines, nlines, strict_blocks=case.get('strict_comment_blocks', False))
+        if r is not None and r[0] == 'excluded':
+            ctx.exclude(r[1])
+        elif r is not None:
             bad.append((n, r))
     if bad:
         # a constant displacement of everything is one root cause, whatever classes it hits
@@ -161,6 +184,8 @@ def check_frontend(fe, sf, rendered, lines, nlines, ctx, case):
         return multi
 
     # ---- completeness against the line map ----
+    if not complete:
+        return multi
     by = {}
     for n in nodes:
         src = getattr(n, 'source', None)
@@ -240,14 +265,26 @@ def check_case(case, ctx):
         or any(s_['tag'] == 'comment' for s_ in rendered.stmts)
     multi_total = 0
     ok_frontends = []
+    from ..unitsrc import facts
+    parsed = {}
     for fe in ('fp', 'regex'):
         try:
-            sf = parse(text, fe)
+            parsed[fe] = parse(text, fe)
         except (Exception, SystemExit) as e:  # noqa
             ctx.reject(e if isinstance(e, Exception) else f'SystemExit@fparser({fe})', {'text': text[:1200]})
-            continue
+    same_discovery = False
+    if len(parsed) == 2:
+        try:
+            same_discovery = not facts.diff(facts.extract(parsed['fp']), facts.extract(parsed['regex']))
+        except Exception:  # noqa
+            same_discovery = False
+        if not same_discovery:
+            # WHAT the regex frontend finds is C19's business; only its per-node locations are judged here
+            ctx.count('regex-discovery-differs-from-fp(C19): regex completeness not judged')
+    for fe, sf in parsed.items():
         ok_frontends.append(fe)
-        multi_total += check_frontend(fe, sf, rendered, lines, nlines, ctx, case)
+        multi_total += check_frontend(fe, sf, rendered, lines, nlines, ctx, case,
+                                      complete=(fe == 'fp' or same_discovery))
     classes = [f'layout:{h}' for h in how] + [f'parsed:{fe}' for fe in ok_frontends]
     if lines and not lines[0].strip():
         classes.append('file-starts-with-blank-line')
